@@ -20,7 +20,7 @@ from concurrent.futures import ThreadPoolExecutor
 VERIF = os.path.dirname(os.path.dirname(os.path.abspath(__file__)))
 REPO = os.environ.get('YARA_REPO', '/repo')
 YRX = os.path.join(VERIF, '.build', 'yrx')
-CACHE = os.path.join(VERIF, '.cache')
+CACHE = os.environ.get('YRSA_CACHE') or os.path.join(VERIF, '.cache')
 RESOURCE_DIR = '/usr/lib/llvm-14/lib/clang/14.0.6'
 
 PARSERS = [
